@@ -483,6 +483,54 @@ func vpH_C20_collection_property() {
 	vpReach("end")
 }
 
+// every single-item property of every type set to a nil pointer (of every type): both encoders,
+// equality, cleaning and flattening of the holder go on without it
+func vpH_C20_every_property() {
+	ti := vpChoice(len(vpTypeNames))
+	fields := vpFieldsOf(ti)
+	f := 2 + vpChoice(len(fields)-2)
+	if fields[f].Kind != "Item" {
+		vpReach("end")
+		return
+	}
+	k := 1 + vpChoice(vpNilKindCount()-1)
+	nilv := vpNilOfKind(k)
+	x := vpNew(ti)
+	vpSetField(x, 0, 0, 'i')
+	name := fields[f].Name
+	vpMapItemFields(x, func(n string, v Item) Item {
+		if n == name {
+			return nilv
+		}
+		return v
+	})
+	cell := vpTypeNames[ti] + "." + name + "/" + vpNilKindName(k)
+	var what string
+	panicked := false
+	switch vpChoice(6) {
+	case 0:
+		what = "MarshalJSON"
+		panicked = vpMayPanic(func() { _, _ = vpMarshalItem(x) })
+	case 1:
+		what = "GobEncode"
+		panicked = vpMayPanic(func() { _, _ = GobEncode(x) })
+	case 2:
+		what = "ItemsEqual"
+		panicked = vpMayPanic(func() { _ = ItemsEqual(x, x); _ = ItemsEqual(x, vpCloneItem(x)) })
+	case 3:
+		what = "CleanRecipients"
+		panicked = vpMayPanic(func() { _ = CleanRecipients(x) })
+	case 4:
+		what = "FlattenProperties"
+		panicked = vpMayPanic(func() { _ = FlattenProperties(x) })
+	default:
+		what = "NotEmpty-IsNil"
+		panicked = vpMayPanic(func() { _ = NotEmpty(x); _ = IsNil(x) })
+	}
+	vpAssert("every-property/no-panic/"+what+"/"+cell, !panicked)
+	vpReach("end")
+}
+
 func vpW_C20_twin() {
 	_ = IsNil(nil)
 	vpAssert("twin", false)
